@@ -1,8 +1,214 @@
 import CanvasModel.Driver
+import CanvasModel.C07
 import CanvasGen.CoreF
 import CanvasGen.BezierF
-open Canvas
+open Canvas Canvas.C07
+
+/-- `math.Mod` for the magnitudes that occur here (|x| a few multiples of y): exact when the
+quotient truncates to 0, otherwise accurate to an ulp of x. -/
+def fmodF (x y : Float) : Float :=
+  let q := x / y
+  let qi := if q ≥ 0 then q.floor else q.ceil
+  if qi == 0 then x else x - qi * y
+
+/-- executable instance: the *generated* translations of `Equal` and of the `Matrix` methods, libm -/
+instance : Ops Float where
+  equal := GenF.Equal
+  mmul := GenF.Matrix.Mul
+  minv := GenF.Matrix.Inv
+  mT := GenF.Matrix.T
+  mdet := GenF.Matrix.Det
+  mdot := GenF.Matrix.Dot
+  mscale := GenF.Matrix.Scale
+  mtranslate := GenF.Matrix.Translate
+  decompose := GenF.Matrix.Decompose
+  sqrt := Float.sqrt
+  hypot := goHypot
+  atan2 := Float.atan2
+  sin := Float.sin
+  cos := Float.cos
+  abs := Float.abs
+  fmod := fmodF
+  pi := goPi
+  nan := 0.0 / 0.0
+
+def hexs (fs : List Float) : String := String.intercalate " " (fs.map hexOfFloat)
+
+def optF : Option Float → Float
+  | some x => x
+  | none => 0.0 / 0.0
+
+def matToks (m : Mat Float) : List Float := [m.a, m.b, m.c, m.d, m.e, m.f]
+
+def mat? : List Float → Option (Mat Float)
+  | [a, b, c, d, e, f] => some ⟨a, b, c, d, e, f⟩
+  | _ => none
+
+def b01 (b : Bool) : String := if b then "1" else "0"
+
+/-- direction-free description of an ellipse: radii and `w·cos 2φ, w·sin 2φ` with the relative
+eccentricity `w = (rx - ry)/(rx + ry)`; continuous in the ellipse, also through circles -/
+def ellipseToks (rx ry : Float) (c2 s2 : Float) : List Float :=
+  let w := (rx - ry) / (rx + ry)
+  [rx, ry, w * c2, w * s2]
+
+def arcToks (m : Mat Float) (rx ry : Float) (sc : Float × Float) : List Float × String :=
+  match arcCore m rx ry sc with
+  | some r => (ellipseToks r.rx r.ry (r.v.x * r.v.x - r.v.y * r.v.y) (2 * r.v.x * r.v.y), toString r.branch ++ (if r.swapped then "s" else "n"))
+  | none => ([0.0 / 0.0, 0.0 / 0.0, 0.0 / 0.0, 0.0 / 0.0], "nan")
+
+/-- commands of an `XF` line: `M x y`, `L x y`, `Z x y`, `Q 4`, `C 6`, `A rx ry phi sin cos large sweep x y` -/
+partial def parseCmds : List String → Option (List (Cmd Float))
+  | [] => some []
+  | "M" :: x :: y :: rest => do
+    let x ← floatOfHex? x; let y ← floatOfHex? y
+    let cs ← parseCmds rest; pure (.M ⟨x, y⟩ :: cs)
+  | "L" :: x :: y :: rest => do
+    let x ← floatOfHex? x; let y ← floatOfHex? y
+    let cs ← parseCmds rest; pure (.L ⟨x, y⟩ :: cs)
+  | "Z" :: x :: y :: rest => do
+    let x ← floatOfHex? x; let y ← floatOfHex? y
+    let cs ← parseCmds rest; pure (.Z ⟨x, y⟩ :: cs)
+  | "Q" :: a :: b :: x :: y :: rest => do
+    let a ← floatOfHex? a; let b ← floatOfHex? b
+    let x ← floatOfHex? x; let y ← floatOfHex? y
+    let cs ← parseCmds rest; pure (.Q ⟨a, b⟩ ⟨x, y⟩ :: cs)
+  | "C" :: a :: b :: c :: d :: x :: y :: rest => do
+    let a ← floatOfHex? a; let b ← floatOfHex? b
+    let c ← floatOfHex? c; let d ← floatOfHex? d
+    let x ← floatOfHex? x; let y ← floatOfHex? y
+    let cs ← parseCmds rest; pure (.C ⟨a, b⟩ ⟨c, d⟩ ⟨x, y⟩ :: cs)
+  | "A" :: rx :: ry :: phi :: s :: c :: large :: sweep :: x :: y :: rest => do
+    let rx ← floatOfHex? rx; let ry ← floatOfHex? ry; let phi ← floatOfHex? phi
+    let s ← floatOfHex? s; let c ← floatOfHex? c
+    let x ← floatOfHex? x; let y ← floatOfHex? y
+    let cs ← parseCmds rest; pure (.A rx ry phi (s, c) (large == "1") (sweep == "1") ⟨x, y⟩ :: cs)
+  | _ => none
+
+def cmdToks : Cmd Float → String
+  | .M p => "M " ++ hexs [p.x, p.y]
+  | .L p => "L " ++ hexs [p.x, p.y]
+  | .Z p => "Z " ++ hexs [p.x, p.y]
+  | .Q a p => "Q " ++ hexs [a.x, a.y, p.x, p.y]
+  | .C a b p => "C " ++ hexs [a.x, a.y, b.x, b.y, p.x, p.y]
+  | .A rx ry _ sc large sweep p =>
+    -- sc = (v.y, v.x) of the unit axis vector
+    "A " ++ hexs (ellipseToks rx ry (sc.2 * sc.2 - sc.1 * sc.1) (2 * sc.2 * sc.1)) ++ " " ++ b01 large ++ " " ++ b01 sweep
+      ++ " " ++ hexs [p.x, p.y]
+
+def svgOps? : List String → Option (List (SvgOp Float))
+  | [] => some []
+  | "t" :: x :: y :: rest => do
+    let x ← floatOfHex? x; let y ← floatOfHex? y
+    let r ← svgOps? rest; pure (.translate x y :: r)
+  | "r" :: a :: rest => do
+    let a ← floatOfHex? a
+    let r ← svgOps? rest; pure (.rotate a :: r)
+  | "s" :: x :: y :: rest => do
+    let x ← floatOfHex? x; let y ← floatOfHex? y
+    let r ← svgOps? rest; pure (.scale x y :: r)
+  | "m" :: a :: b :: c :: d :: e :: f :: rest => do
+    let a ← floatOfHex? a; let b ← floatOfHex? b; let c ← floatOfHex? c
+    let d ← floatOfHex? d; let e ← floatOfHex? e; let f ← floatOfHex? f
+    let r ← svgOps? rest; pure (.matrix a b c d e f :: r)
+  | _ => none
+
+def svgOpTag : SvgOp Float → String
+  | .translate _ _ => "t" | .rotate _ => "r" | .scale _ _ => "s" | .matrix .. => "m"
+
+def maxAbsDiff (p q : Mat Float) : Float :=
+  let d := fun (x y : Float) => (x - y).abs
+  [d p.a q.a, d p.b q.b, d p.c q.c, d p.d q.d, d p.e q.e, d p.f q.f].foldl (fun a b => if a < b || b.isNaN then b else a) 0.0
+
+def matSize (m : Mat Float) : Float :=
+  m.a.abs + m.b.abs + m.c.abs + m.d.abs + m.e.abs + m.f.abs
+
 def handle : List String → Option String
   | "L1" :: name :: args => (GenF.dispatchCore name args) <|> (GenF.dispatchBezier name args)
+  | "ROT" :: toks => do
+    let fs ← toks.mapM floatOfHex?
+    let m ← mat? (fs.take 6)
+    let rot ← fs[6]?
+    pure (hexs (matToks (rotate m rot)))
+  | "ROTA" :: toks => do
+    let fs ← toks.mapM floatOfHex?
+    let m ← mat? (fs.take 6)
+    pure (hexs (matToks (rotateAbout m (← fs[6]?) (← fs[7]?) (← fs[8]?))))
+  | ["SQ", a, b, c] => do
+    let r := solveQuadratic (← floatOfHex? a) (← floatOfHex? b) (← floatOfHex? c)
+    pure (hexs [optF r.1, optF r.2])
+  | "EIGL" :: toks => do
+    let m ← mat? (← toks.mapM floatOfHex?)
+    let e := eigen m
+    pure (hexs [optF e.l1, optF e.l2] ++ " " ++ toString e.branch)
+  | "EIGV" :: toks => do
+    let m ← mat? (← toks.mapM floatOfHex?)
+    let e := eigen m
+    pure (hexs [e.v1.x, e.v1.y, e.v2.x, e.v2.y])
+  | ["NORM1", x, y] => do
+    let r := norm1 (⟨← floatOfHex? x, ← floatOfHex? y⟩ : Pt Float)
+    pure (hexs [r.x, r.y])
+  | ["ANGLE", x, y] => do
+    pure (hexs [angle (⟨← floatOfHex? x, ← floatOfHex? y⟩ : Pt Float)])
+  | ["ANORM", t] => do
+    pure (hexs [angleNorm (← floatOfHex? t)])
+  | "ARC" :: toks => do
+    -- m(6) rx ry phi sin cos large sweep ex ey
+    let fs ← (toks.take 11).mapM floatOfHex?
+    let m ← mat? (fs.take 6)
+    let rx ← fs[6]?; let ry ← fs[7]?; let s ← fs[9]?; let c ← fs[10]?
+    let large ← toks[11]?; let sweep ← toks[12]?
+    let ex ← floatOfHex? (← toks[13]?); let ey ← floatOfHex? (← toks[14]?)
+    let (et, br) := arcToks m rx ry (s, c)
+    let sw := if flips m then sweep != "1" else sweep == "1"
+    let e := GenF.Matrix.Dot m ⟨ex, ey⟩
+    pure (hexs et ++ " " ++ large ++ " " ++ b01 sw ++ " " ++ hexs [e.x, e.y] ++ " " ++ br)
+  | "XF" :: toks => do
+    let m ← mat? (← (toks.take 6).mapM floatOfHex?)
+    let cs ← parseCmds (toks.drop 6)
+    pure (String.intercalate " " ((transform m cs).map cmdToks))
+  | "DEC" :: toks => do
+    -- verdict: m(6) tol, the six results of the real Decompose: recomposition must give m back
+    let fs ← toks.mapM floatOfHex?
+    let m ← mat? (fs.take 6)
+    let tol ← fs[6]?
+    match fs.drop 7 with
+    | [tx, ty, phi, sx, sy, theta] =>
+      let r := recompose (tx, ty, phi, sx, sy, theta)
+      let d := maxAbsDiff r m
+      if d ≤ tol * (1 + matSize m) then pure "ok" else pure ("FAIL recompose " ++ hexs (matToks r))
+    | _ => none
+  | "SVG" :: h :: toks => do
+    -- verdict: h m(6) tol, then the operations parsed from the string the real ToSVG returned
+    let h ← floatOfHex? h
+    let m ← mat? (← (toks.take 6).mapM floatOfHex?)
+    let tol ← floatOfHex? (← toks[6]?)
+    let ops ← svgOps? (toks.drop 7)
+    -- the empty string stands for "no transformation" (svgInterp [] = identity)
+    let got := svgInterp ops
+    let want := svgTarget m h
+    let wantNoH := svgTarget m 0
+    let shape := if ops.isEmpty then "empty" else String.join (ops.map svgOpTag)
+    if maxAbsDiff got want ≤ tol * (1 + matSize want) then pure ("ok " ++ shape)
+    else if maxAbsDiff got wantNoH ≤ tol * (1 + matSize want) then pure ("FAIL height-dropped " ++ shape)
+    else pure ("FAIL svg-transform " ++ shape ++ " " ++ hexs (matToks got))
+  | "ARCV" :: toks => do
+    -- verdict on what the real Path.Transform returned for one arc:
+    -- m(6) rx ry c s large sweep ex ey | rx' ry' c' s' large' sweep' ex' ey' | rel
+    let t := toks.toArray
+    if t.size != 23 then none else
+    let m ← mat? (← (toks.take 6).mapM floatOfHex?)
+    let r? := fun (i : Nat) => ratOfHex? t[i]!
+    if t[14]! == "7ff8000000000001" || t[15]! == "7ff8000000000001" then pure "FAIL nan-radii" else
+    -- flags: large is kept, sweep flips exactly for orientation-reversing maps (sign of the exact determinant)
+    let det := (← r? 0) * (← r? 4) - (← r? 1) * (← r? 3)
+    let wantSweep := if det < 0 then t[11]! != "1" else t[11]! == "1"
+    if t[18]! != t[10]! || (t[19]! == "1") != wantSweep then pure "FAIL flags" else
+    -- end point: m.Dot(end), bit for bit
+    let e := GenF.Matrix.Dot m ⟨← floatOfHex? t[12]!, ← floatOfHex? t[13]!⟩
+    if hexOfFloat e.x != t[20]! || hexOfFloat e.y != t[21]! then pure "FAIL endpoint" else
+    pure (arcVerdict (← r? 0) (← r? 1) (← r? 3) (← r? 4) (← r? 6) (← r? 7) (← r? 8) (← r? 9)
+      (← r? 14) (← r? 15) (← r? 16) (← r? 17) (← r? 22))
   | _ => none
+
 def main : IO Unit := runDriver handle
